@@ -13,6 +13,7 @@ import (
 	"fmt"
 	"go/ast"
 	"go/parser"
+	"go/token"
 	"go/types"
 	"sort"
 	"strings"
@@ -519,6 +520,30 @@ func runSensitivitySweep(p *Program, prop *Property, funcs map[string]bool) map[
 				cands = append(cands, cand{fx.Wit(c, "("+src+") && false", "force-false"), fx.Name + " " + fx.Pos(c) + ": " + firstLines(src, 1)})
 				cands = append(cands, cand{fx.Wit(c, "("+src+") || true", "force-true"), fx.Name + " " + fx.Pos(c) + ": " + firstLines(src, 1)})
 			}
+			// statement removal: every call statement, assignment, ++/--, defer and go of the function
+			for _, b := range g.Blocks {
+				for _, n := range b.Nodes {
+					switch st := n.(type) {
+					case *ast.ExprStmt, *ast.IncDecStmt, *ast.DeferStmt, *ast.GoStmt:
+					case *ast.AssignStmt:
+						if st.Tok == token.DEFINE {
+							continue // removing a declaration does not compile
+						}
+					default:
+						continue
+					}
+					src := p.srcText(n)
+					if src == "" || len(src) > 600 {
+						continue
+					}
+					w := fx.WitDelete(n)
+					if w.File == "" {
+						continue
+					}
+					w.Kind = "remove-stmt"
+					cands = append(cands, cand{w, fx.Name + " " + fx.Pos(n) + ": " + firstLines(src, 1)})
+				}
+			}
 		}
 	}
 	var mu sync.Mutex
@@ -563,7 +588,7 @@ func runSensitivitySweep(p *Program, prop *Property, funcs map[string]bool) map[
 	sort.Strings(blind)
 	sort.Strings(seenList)
 	return map[string]any{
-		"sensitivity_rule":         "every two-way condition of the analysed functions forced false and forced true, one at a time, in memory; a variant is noticed when at least one obligation of the property stops being discharged",
+		"sensitivity_rule":         "every two-way condition of the analysed functions forced false and forced true, and every call statement / assignment / increment / defer / go statement reduced to the evaluation of its operands, one at a time, in memory; a variant is noticed when at least one obligation of the property stops being discharged",
 		"sensitivity_variants":     applied,
 		"sensitivity_noticed":      noticed,
 		"sensitivity_unnoticed":    blind,
